@@ -42,6 +42,7 @@ def step (line : String) : String :=
   | ["re", idx, prev, hex] => opRe idx prev hex
   | ["decl", hist] => DeclOps.run hist
   | ["sheet", fx, hist] => SheetOps.run fx hist
+  | ["cont", which, hist] => SheetOps.runCont which hist
   | _ => "bad-op"
 
 partial def loop (h : IO.FS.Stream) (out : IO.FS.Stream) : IO Unit := do
